@@ -307,8 +307,16 @@ func (store ItemVarStore) GetDelta(index VariationStoreIndex, coords []Coord) fl
 // Evaluate returns the scalar factor of the region
 func (vr VariationRegion) Evaluate(coords []Coord) float32 {
 	v := float32(1)
-	for axis, coord := range coords {
-		factor := vr.RegionAxes[axis].evaluate(coord)
+	for axis, regionAxis := range vr.RegionAxes {
+		// a missing coordinate is the default position (0) on its axis
+		var coord Coord
+		if axis < len(coords) {
+			coord = coords[axis]
+		}
+		factor := regionAxis.evaluate(coord)
+		if factor == 0 {
+			return 0
+		}
 		v *= factor
 	}
 	return v
